@@ -468,4 +468,26 @@ theorem injectOracle_SG {s : SeqState} (hi : SeqInv s) (n : ChName) (d : Rat) (d
     · rw [if_pos h]; exact ⟨_, rfl, rfl, rfl, List.prefix_refl _, rfl, rfl⟩
     · rw [if_neg h]; exact ⟨_, rfl, Ext.refl c⟩
 
+theorem runEv_calls (s : SeqState) (ops : List Op) : runEv s (ops.map Ev.call) = run s ops := by
+  induction ops generalizing s with
+  | nil => rfl
+  | cons op rest ih => exact ih _
+
+
+theorem stepEv_SG {s : SeqState} (hd : DevOk s.dev) (hi : SeqInv s) (ev : Ev) : SG s (stepEv s ev) := by
+  cases ev with
+  | call op => exact stepRaw_RG hd hi op
+  | oracle n d du fs fe => exact injectOracle_SG hi n d du fs fe
+
+theorem runEv_SG {s : SeqState} (hd : DevOk s.dev) (hi : SeqInv s) (evs : List Ev) :
+    SG s (runEv s evs) := by
+  induction evs generalizing s with
+  | nil => exact SG.rfl' hi
+  | cons ev rest ih =>
+    have h1 := stepEv_SG hd hi ev
+    have h2 : SG (stepEv s ev) (runEv (stepEv s ev) rest) :=
+      ih (by rw [h1.2.1]; exact hd) h1.1
+    exact SG.trans h1 h2
+
+
 end Pulser
